@@ -86,6 +86,18 @@ def run_mutations(pid, tier, seed, exe, wd):
     metas = [s for s in stmts if s["t"]["meta"] == 1][:1] + [s for s in stmts if s["t"]["meta"] == 7][:1] + [s for s in stmts if s["t"]["meta"] == 8][:1]
     chosen = small[:1] + aux_lag[:1 if tier == "quick" else 4] + aux_plain[:1 if tier == "quick" else 4] + metas + chosen
     scs = [starkgen.scenario(rec, i, seed) for i, rec in enumerate(chosen)]
+    # every (field, hasher) combination on a small statement: what a hasher does with the integers it is handed (nonce, counters)
+    # differs per hasher, so the structured mutations run once under each of them (fewer random edits, no truncations)
+    nmain = len(scs)
+    for bits, hs in sorted(starkgen.HASHERS.items()):
+        cand = [s for s in stmts if s["t"]["bits"] == bits and s["t"]["ln"] <= 4 and s["t"]["q"] <= 8 and s["t"]["width"] <= 4 and not s["t"]["auxd"]]
+        for k, h in enumerate(hs):
+            if not cand:
+                continue
+            sc = starkgen.scenario(cand[(seed + k) % len(cand)], len(scs), seed)
+            sc["hasher"] = h
+            sc["hasher_pass"] = True
+            scs.append(sc)
     scs = [sc for sc in scs if not starkgen.low_degree(sc)]
     msets, st, tr = mutation_sets({wire_key(sc) for sc in scs}, wd)
     obs = []
@@ -94,7 +106,8 @@ def run_mutations(pid, tier, seed, exe, wd):
     for i, sc in enumerate(scs):
         p = os.path.join(wd, "sc_%d.ndjson" % i)
         vlib.write_ndjson(p, [sc])
-        args = ["stark", "mutate", "--scenarios", p, "--mutations", msets[wire_key(sc)][0], "--byte-edits", "2000" if tier == "quick" else "20000", "--truncations"]
+        args = ["stark", "mutate", "--scenarios", p, "--mutations", msets[wire_key(sc)][0]] + (
+            ["--byte-edits", "200"] if sc.get("hasher_pass") else ["--byte-edits", "2000" if tier == "quick" else "20000", "--truncations"])
         if i < nbit and sc["shape"]["n"] <= 16:
             args.append("--bitflips")
         jobs.append((sc, p, args))
@@ -185,7 +198,12 @@ def run(tier, seed, pid="C03"):
             mut, out = f["mutation"], f["outcome"]
             where = mut.split(" in ")[-1] if mut.startswith(("bit", "byte")) else mut
             if where.startswith("pow_nonce"):
-                where = "pow_nonce"
+                # a different nonce is accepted when it passes the grinding condition and happens to draw the same positions (known
+                # finding, probability (1/LDE size)^queries per nonce); when that chance is below 2^-20 an accepted nonce is no
+                # coincidence: the coin cannot tell the two nonces apart
+                import math
+                bits = sc["opts"]["q"] * math.log2(sc["shape"]["n"] * sc["opts"]["blowup"]) + sc["opts"]["grind"]
+                where = "pow_nonce" if bits < 20 else "pow_nonce-indistinguishable"
             if pid == "C03" and out == "accepted-different":
                 v.violation("integrity/accepted/%s" % where, "a proof whose decoded content differs from an accepted proof (%s) is ACCEPTED (%s)" % (mut, ctx),
                             {"scenario": sc, "mutation": mut})
